@@ -125,9 +125,10 @@ def build_lib(name, mods):
     tdir = os.path.join(root, "target")
     p = sh(["cargo", "build", "--offline"], cwd=crate, env=cargo_env({"CARGO_TARGET_DIR": tdir}), timeout=3000, check=False)
     if p.returncode != 0:
-        dups = set(re.findall(r"symbol `(\w+)` is already defined", p.stderr))
+        # two items of one expansion with the same name: E0428 for two fns in one module, "symbol .. is already defined" across modules
+        dups = set(re.findall(r"symbol `(\w+)` is already defined", p.stderr)) | set(re.findall(r"the name `(\w+)` is defined multiple times", p.stderr))
         errs = [ln for ln in p.stderr.splitlines() if ln.startswith("error")]
-        if dups and all("is already defined" in e or "could not compile" in e or "aborting due to" in e for e in errs):
+        if dups and all("is already defined" in e or "is defined multiple times" in e or "could not compile" in e or "aborting due to" in e for e in errs):
             return None, {}, dups, crate
         raise MachineryError("crate %s does not build with the real proc macro:\n%s" % (cname, p.stderr[-5000:]))
     q = sh(["nm", "-g", "--defined-only", os.path.join(tdir, "debug", "lib%s.a" % cname)])
